@@ -42,7 +42,8 @@ func cliCheck(res *sched.Result, w *cliWorld) (finds []explore.Finding, outcome 
 	case sched.StatusDivergent:
 		return nil, "divergent"
 	default:
-		add("C10,C15/"+res.Status, "%s %v %s; %s", res.PanicVal, res.Blocked, res.Notes, w.logString())
+		// (a panic, a livelock or a runaway execution is every client property's business: nothing it promises holds afterwards)
+		add("C10,C11,C12,C15/"+res.Status, "%s %v %s; %s", res.PanicVal, res.Blocked, res.Notes, w.logString())
 		return finds, res.Status
 	}
 	if w.fatal != "" {
